@@ -309,7 +309,30 @@ def compare(ob, repo_prog, ref_prog, module, fname, same_term, backend='ecdsa'):
     vocab |= {'MINBYTES', 'NOT', 'AND', 'OR', 'EQ', 'LT', 'IS', 'BOOL', 'IN', 'ADD', 'SUB', 'MUL', 'FLOORDIV', 'MOD', 'LSHIFT', 'RSHIFT',
               'BITAND', 'BITOR', 'BITXOR', 'LEN', 'GETITEM', 'SLICE', 'CAT', 'NEG', 'POW', 'ORD', 'INT', 'SER'}
 
+    def records_as_tuples(t, _d=0):
+        # an object of a NamedTuple record class is the tuple of its fields in declaration order (it unpacks, indexes and
+        # compares as that tuple)
+        if not isinstance(t, tuple) or _d > 40:
+            return t
+        k = T.tag(t)
+        if k == 'phi':
+            return T.phi(records_as_tuples(t[1], _d + 1), records_as_tuples(t[2], _d + 1), records_as_tuples(t[3], _d + 1))
+        if k in ('tuple', 'list'):
+            return (k, tuple(records_as_tuples(x, _d + 1) for x in t[1]))
+        if k == 'op':
+            args = tuple(records_as_tuples(x, _d + 1) if isinstance(x, tuple) else x for x in t[2:])
+            return t if all(a is b for a, b in zip(args, t[2:])) else T.op(t[1], *args)
+        if k == 'obj':
+            ci = repo_prog.classes.get(t[1])
+            if ci is not None and ci.is_record and any(b.split('.')[-1] == 'NamedTuple' for c_ in ci.mro() for b in c_.base_names):
+                f = T.obj_fields(t)
+                names = [nm for nm, _ in ci.fields]
+                if all(nm in f for nm in names):
+                    return T.tup([records_as_tuples(f[nm], _d + 1) for nm in names])
+        return t
+
     def st(ob_, found, expected, what, where_=None):
+        found = records_as_tuples(found) if found is not None else None
         cf = canon(found) if found is not None else None
         ce = canon(expected) if expected is not None else None
         if cf is not None and ce is not None and cf != ce:
